@@ -533,14 +533,18 @@ void __wrap_free(void *p) { heap_forget(p); __real_free(p); }
 void reent_libc_trap(uintptr_t pc, const char *name) {
     if (lib_active() && sim::g_symtab.is_repo(pc))
         violation(std::string("shared-state:libc-") + name + ":" + sim::g_symtab.func(pc),
-                  sim::g_symtab.func(pc) + "() calls " + name + "(), which keeps hidden static state inside libc (POSIX: need not be thread-safe)");
+                  sim::g_symtab.func(pc) + "() calls " + name + "(), which works on process-wide state inside libc (hidden static storage, the environment or a standard stream)");
 }
 #define DENY_LIBC(name)                                                                                                         \
     __asm__(".text\n.globl __wrap_" #name "\n.type __wrap_" #name ",@function\n__wrap_" #name ":\n"                            \
-            "  push %rdi\n  push %rsi\n  push %rdx\n  push %rcx\n  push %r8\n  push %r9\n  push %rax\n  sub $16,%rsp\n"      \
-            "  movsd %xmm0,(%rsp)\n  mov 72(%rsp),%rdi\n  lea .Lname_" #name "(%rip),%rsi\n  call reent_libc_trap\n"           \
-            "  movsd (%rsp),%xmm0\n  add $16,%rsp\n  pop %rax\n  pop %r9\n  pop %r8\n  pop %rcx\n  pop %rdx\n  pop %rsi\n"     \
-            "  pop %rdi\n  jmp __real_" #name "\n.section .rodata\n.Lname_" #name ": .asciz \"" #name "\"\n.text\n");
+            "  push %rdi\n  push %rsi\n  push %rdx\n  push %rcx\n  push %r8\n  push %r9\n  push %rax\n  sub $128,%rsp\n"     \
+            "  movdqu %xmm0,(%rsp)\n  movdqu %xmm1,16(%rsp)\n  movdqu %xmm2,32(%rsp)\n  movdqu %xmm3,48(%rsp)\n"               \
+            "  movdqu %xmm4,64(%rsp)\n  movdqu %xmm5,80(%rsp)\n  movdqu %xmm6,96(%rsp)\n  movdqu %xmm7,112(%rsp)\n"            \
+            "  mov 184(%rsp),%rdi\n  lea .Lname_" #name "(%rip),%rsi\n  call reent_libc_trap\n"                                \
+            "  movdqu (%rsp),%xmm0\n  movdqu 16(%rsp),%xmm1\n  movdqu 32(%rsp),%xmm2\n  movdqu 48(%rsp),%xmm3\n"               \
+            "  movdqu 64(%rsp),%xmm4\n  movdqu 80(%rsp),%xmm5\n  movdqu 96(%rsp),%xmm6\n  movdqu 112(%rsp),%xmm7\n"            \
+            "  add $128,%rsp\n  pop %rax\n  pop %r9\n  pop %r8\n  pop %rcx\n  pop %rdx\n  pop %rsi\n  pop %rdi\n"              \
+            "  jmp __real_" #name "\n.section .rodata\n.Lname_" #name ": .asciz \"" #name "\"\n.text\n");
 #include "libc_denylist.inc"
 
 void *__wrap_memset(void *d, int c, size_t n) {
